@@ -112,6 +112,8 @@ def make_case(rnd, idx, layout, scen, long_spans=False, variant=0, fixed=None):
         ann = D(end.year, 12, 31)
     eff = _ende_eff(end, ann)
     first = D(sy, 1, 1)
+    if scen.startswith("sweep:") and layout != 0 and "shared" not in scen:
+        first = D(sy, 9, 1)              # multi-year file starting inside the start year, before the first simulated day (October or later)
     delta = 0
     if scen == "startyear-mismatch":
         # StartYear one or two years before / one year after the year of the first simulated day; the series covers the earlier years
@@ -672,6 +674,9 @@ def oracle(ctx, search):
         fails.append(Fail(key=key, what=what))
     # malformed lines are outside the property's quantifier (decision of the lead): observed, never an alarm
     shifted, stats = toklib.oracle_malformed(tcases, tres)
+    if os.environ.get("C04_DEBUG"):
+        for f_ in fails:
+            open("/tmp/c04fails.txt", "a").write("%s | %s\n" % (f_["key"], str(dict(f_))[:500]))
     ctx.extra["observed_outside_property"] = {
         "what": "malformed data lines (empty field, decimal comma, dropped field) that the multi-year readers accept as a record "
                 "shifted by one column because Explode drops empty fields and the token count is never compared with the header; "
